@@ -27,9 +27,15 @@ class AstToSqlAlchemyOrmVisitor(common._CommonVisitors, visitor.NodeVisitor):
     def visit_Identifier(self, node: ast.Identifier) -> ColumnClause:
         ":meta private:"
         try:
-            return getattr(self.root_model, node.name)
+            field = getattr(self.root_model, node.name)
         except AttributeError:
             raise ex.InvalidFieldException(node.name)
+
+        # Only mapped attributes (columns, relationships) are fields. The model
+        # class has plenty of other attributes (`metadata`, `__tablename__`, ...).
+        if not isinstance(field, InstrumentedAttribute):
+            raise ex.InvalidFieldException(node.name)
+        return field
 
     def visit_Attribute(self, node: ast.Attribute) -> ColumnClause:
         ":meta private:"
@@ -45,9 +51,13 @@ class AstToSqlAlchemyOrmVisitor(common._CommonVisitors, visitor.NodeVisitor):
         # We'd like to reference the column on the related class:
         owner_cls = prop_inspect.entity.class_
         try:
-            return getattr(owner_cls, node.attr)
+            field = getattr(owner_cls, node.attr)
         except AttributeError:
             raise ex.InvalidFieldException(node.attr)
+
+        if not isinstance(field, InstrumentedAttribute):
+            raise ex.InvalidFieldException(node.attr)
+        return field
 
     def visit_Compare(self, node: ast.Compare) -> BinaryExpression:
         ":meta private:"
